@@ -57,6 +57,10 @@ type neConfig struct {
 	mode     config.CollisionMode
 	modeIdx  uint8
 	velocity uint8
+	defOct   int8
+	defSemi  int8
+	defCh    uint8
+	defMap   int
 	exitLen  int
 	exit     [3]evdev.EvCode
 	cfg      config.Config
@@ -89,6 +93,10 @@ func buildNEConfig() *neConfig {
 	c.mode = pickMode(c.modeIdx)
 	c.velocity = verifrt.U8("cfg.velocity")
 	verifrt.Assume(c.velocity >= 1 && c.velocity <= 127)
+	// arbitrary (non-neutral) defaults: the resets must go to the neutral values, not to these
+	c.defOct, c.defSemi, c.defCh = verifrt.I8("cfg.def.octave"), verifrt.I8("cfg.def.semitone"), verifrt.U8("cfg.def.channel")
+	c.defMap = int(verifrt.U8("cfg.def.mapping"))
+	verifrt.Assume(c.defCh >= 1 && c.defCh <= 16 && c.defMap < c.M)
 	var mappings []config.KeyMapping
 	for m := 0; m < c.M; m++ {
 		keys := map[evdev.EvCode]config.Key{}
@@ -129,7 +137,7 @@ func buildNEConfig() *neConfig {
 		ActionMapping: actions,
 		ExitSequence:  exit,
 		CollisionMode: c.mode,
-		Defaults:      config.Defaults{Octave: 0, Semitone: 0, Channel: 1, Mapping: 0, Velocity: int(c.velocity)},
+		Defaults:      config.Defaults{Octave: int(c.defOct), Semitone: int(c.defSemi), Channel: int(c.defCh), Mapping: c.defMap, Velocity: int(c.velocity)},
 	}
 	return c
 }
